@@ -4,6 +4,7 @@
    correspondence run against the built binary. *)
 From Coq Require Import Lia.
 From RM Require Import C20.Model C20.Proofs.
+From RM Require Gen.C20DumpSeq C20.DumpSeq.
 Open Scope Z_scope.
 
 (* Every flag record is rejected, is the hidden --help-markdown, or has a plan.  [flags] has
@@ -142,6 +143,35 @@ Theorem c20_io_error_status : forall f e w r, f_help_md f = false ->
 Proof. exact io_error_status. Qed.
 Print Assumptions c20_io_error_status.
 
+(* io faults, sink by sink.  (1) any environment: a failing run in which no printer call failed
+   (read / processing error, rejection, any File::create failure: missing directory, directory,
+   read-only file) renders nothing on any sink. *)
+Theorem c20_failure_no_partial_report_partial : forall f e, f_help_md f = false -> snd (run f e) <> 0 ->
+  (forall w r, ~ In (WriteFailed w r) (fst (run f e))) ->
+  existsb is_render (fst (run f e)) = false.
+Proof. exact failure_no_partial_report_partial. Qed.
+Print Assumptions c20_failure_no_partial_report_partial.
+
+(* (2) bytes on the primary output of a failing run arise only from a mid-report io error: an io
+   error (not a broken pipe) on a printer call that had itself already streamed a prefix, or that
+   came after a complete report on the primary output (the --cyborg file failing after the human
+   report).  Known finding F-C20c: the text of the property ("status 1 ... and nothing on the
+   primary output") does not hold for these runs; [midreport_io_error] is the Known_ class. *)
+Theorem c20_dirty_primary_only_midreport : forall f e, f_help_md f = false -> snd (run f e) <> 0 ->
+  sink_dirty e (writer_of f) (fst (run f e)) -> midreport_io_error f e.
+Proof. exact dirty_primary_only_midreport. Qed.
+Print Assumptions c20_dirty_primary_only_midreport.
+
+(* (3) the refuted form, with both witnesses: cyborg file fails after the complete human report on
+   standard output; a single JSON report fails after a prefix reached the output file *)
+Theorem c20_failure_no_partial_report_refuted :
+  (exists f e, accepted f /\ snd (run f e) = 1 /\ (forall w r, e_partial e w r = false) /\
+               In (Written (writer_of f) Human) (fst (run f e))) /\
+  (exists f e, accepted f /\ snd (run f e) = 1 /\ f_cyborg f = None /\
+               sink_dirty e (writer_of f) (fst (run f e))).
+Proof. exact failure_no_partial_report_refuted. Qed.
+Print Assumptions c20_failure_no_partial_report_refuted.
+
 (* any environment: status 0 means every planned report was written, or a broken pipe ended the run *)
 Theorem c20_zero_means_done_or_pipe : forall f e, f_help_md f = false -> snd (run f e) = 0 ->
   (exists p, decide f = Plan p /\ e_read e = true /\
@@ -162,12 +192,19 @@ Theorem c20_features_table : forall f p, decide f = Plan p ->
 Proof. intros f p H. split; [exact (plan_opts f p H)|exact (features_table f p H)]. Qed.
 Print Assumptions c20_features_table.
 
+(* --dump: the sequence of stream lookups and printer calls of print_minidump_dump, regenerated from
+   main.rs on every run, is the pinned one (43 steps) — and, checked by the translator, the one the
+   harness replays in-process *)
+Theorem c20_dump_sequence_pinned : RM.Gen.C20DumpSeq.DUMP_SEQ = RM.C20.DumpSeq.pinned_dump_seq.
+Proof. exact RM.C20.DumpSeq.dump_seq_pinned. Qed.
+Print Assumptions c20_dump_sequence_pinned.
+
 (* ---- non-vacuity ---- *)
 Example c20_nonvacuous_cyborg :
   let f := {| f_human := false; f_json := false; f_cyborg := Some 2; f_dump := false; f_help_md := false;
               f_pretty := true; f_brief := true; f_features := StableBasic; f_recover := false;
               f_output_file := Some 1; f_log_file := None; f_verbose_off := false |} in
-  let e := {| e_create := fun _ => IoOk; e_read := true; e_process := true; e_write := fun _ _ => IoOk |} in
+  let e := {| e_create := fun _ => IoOk; e_read := true; e_process := true; e_write := fun _ _ => IoOk; e_partial := fun _ _ => false |} in
   accepted f /\ clean e /\
   run f e = ([Create 2; Create 1; Written (File 1) HumanBrief; Written (File 2) (Json true)], 0).
 Proof. split; [split; [vm_compute; discriminate|reflexivity]|]. split; [split; reflexivity|reflexivity]. Qed.
@@ -183,7 +220,7 @@ Example c20_nonvacuous_failures :
   let f := {| f_human := false; f_json := true; f_cyborg := None; f_dump := false; f_help_md := false;
               f_pretty := false; f_brief := false; f_features := StableAll; f_recover := false;
               f_output_file := Some 1; f_log_file := None; f_verbose_off := false |} in
-  let e r p w := {| e_create := fun _ => IoOk; e_read := r; e_process := p; e_write := fun _ _ => w |} in
+  let e r p w := {| e_create := fun _ => IoOk; e_read := r; e_process := p; e_write := fun _ _ => w; e_partial := fun _ _ => false |} in
   run f (e false true IoOk) = ([Diag Logger], 1) /\
   run f (e true false IoOk) = ([Create 1; Diag Logger], 1) /\
   run f (e true true IoErr) = ([Create 1; WriteFailed (File 1) (Json false); Diag Stderr], 1) /\
